@@ -59,23 +59,18 @@ Definition manipulator_to_string (m : gmanip) (src dst : gvar) (args : list gvar
   (if gm_ret_err m then s2b "if err != nil {" ++ nl ++ s2b "return" ++ nl ++ s2b "}" ++ nl else []).
 
 (** generator.FuncToString *)
+Definition func_params (f : function) : list str :=
+  (if str_eqb (fn_style f) style_arg then [v_name (fn_dst f) ++ s2b " *" ++ v_type (fn_dst f)] else []) ++
+  (match fn_receiver f with [] => [v_name (fn_src f) ++ [32] ++ full_type (fn_src f)] | _ => [] end) ++
+  List.map (fun a => v_name a ++ [32] ++ full_type a) (fn_args f).
+
 Definition func_header (f : function) : str :=
   s2b "func " ++
   (match fn_receiver f with
    | [] => []
    | r => [40] ++ r ++ [32] ++ full_type (fn_src f) ++ s2b ") "
    end) ++
-  fn_name f ++ [40] ++
-  (if str_eqb (fn_style f) style_arg then
-     v_name (fn_dst f) ++ s2b " *" ++ v_type (fn_dst f) ++
-     (match fn_receiver f with [] => s2b ", " | _ => [] end)
-   else []) ++
-  (match fn_receiver f with
-   | [] => v_name (fn_src f) ++ [32] ++ full_type (fn_src f)
-   | _ => []
-   end) ++
-  concat_str (List.map (fun a => s2b ", " ++ v_name a ++ [32] ++ full_type a) (fn_args f)) ++
-  s2b ") " ++
+  fn_name f ++ [40] ++ join_str (s2b ", ") (func_params f) ++ s2b ") " ++
   (if str_eqb (fn_style f) style_return then
      [40] ++ v_name (fn_dst f) ++ [32] ++ full_type (fn_dst f) ++
      (if fn_ret_err f then s2b ", err error" else []) ++ s2b ") {" ++ nl
